@@ -90,4 +90,50 @@ def extractAndSet (b : Bytes) (nb nw : Nat) : Option (Option Extracted) :=
                          wits := ws.map (fun p => (wo + p.1, p.2)) })
           | _, _ => none
 
+
+/-! ### Object reuse: decoding into an object that already holds (and has cached) something
+
+Every decoded header / block / transaction / body caches its identifier (`hash *Blake2b256`)
+the first time `Hash()` / `Id()` is asked. `UnmarshalCBOR` into the same receiver must not
+let that cache survive: the library's decoders overwrite the whole receiver (`*h = T(tmp)`) or
+reset the cached fields explicitly, then `SetCbor` allocates a fresh copy of exactly the new
+item's bytes. -/
+
+/-- a decodable object: its stored bytes and its cached identifier -/
+structure Obj (D : Type) where
+  stored : Option Bytes := none
+  cache : Option D := none
+
+/-- `cbor.Decode(b, &obj)` into an existing object: on success the receiver is overwritten —
+    the cache is gone and the stored bytes are a fresh copy of exactly the item; on a decode
+    error the receiver keeps what it had (headers / blocks decode into a temporary first). -/
+def decodeInto {D : Type} (o : Obj D) (b : Bytes) : Obj D :=
+  match decodeStore b with
+  | some s => { stored := some s, cache := none }
+  | none => o
+
+/-- `obj.Hash()` / `obj.Id()`: cached after the first call -/
+def hashOf {D : Type} (h : Bytes → D) (o : Obj D) : D × Obj D :=
+  match o.cache with
+  | some d => (d, o)
+  | none => (h (o.stored.getD []), { o with cache := some (h (o.stored.getD [])) })
+
+inductive ReuseOp where
+  | decode (b : Bytes)
+  | hash
+
+def reuseStep {D : Type} (h : Bytes → D) (o : Obj D) : ReuseOp → Obj D
+  | .decode b => decodeInto o b
+  | .hash => (hashOf h o).2
+
+def reuseRun {D : Type} (h : Bytes → D) (o : Obj D) (ops : List ReuseOp) : Obj D :=
+  ops.foldl (reuseStep h) o
+
+/-- the defective variant (what a field-by-field copy in `UnmarshalCBOR` amounts to): the
+    cache survives the decode -/
+def decodeIntoStale {D : Type} (o : Obj D) (b : Bytes) : Obj D :=
+  match decodeStore b with
+  | some s => { o with stored := some s }
+  | none => o
+
 end GV.Model.StoreCbor
